@@ -399,40 +399,47 @@ func c05Case(c *Ctx, r gen.R, mt msgType, zero bool, caseNo int64, zone, phase s
 func c05(c *Ctx) {
 	c.Res.Rule = "for each of the repository's message structs (obtained through its own dispatchers) every field is filled from in-domain generators, encoded, checked against the reference encoding, decoded into a fresh value and compared field by field in canonical form; then every byte that belongs to no field is randomised and the decode must not change; dispatchers are probed with all 256 function codes x lengths 0..128 x protocol ids; the process time zone is that of the batch (TZ); distinct = distinct (type, encoded bytes) pairs + dispatcher cases"
 	r := c.Rng("main")
-	typesList := messageTypes(c)
-	c.Res.Count("message-types", int64(len(typesList)))
 	zone := time.Local.String()
 	c.Res.Note("zone", zone)
+	// ---- first use of every message type, by 8 goroutines at the same moment, before anything else has touched the codec in this
+	// process (the types are named statically here: asking the dispatchers for them would decode them first); the first batch
+	// repeats this phase in fresh child processes
+	{
+		static := []msgType{}
+		for i := range rm.Layouts {
+			l := &rm.Layouts[i]
+			if l.Side == rm.EventMsg {
+				static = append(static, msgType{staticMsgTypes["Event"], l, 0x17}, msgType{staticMsgTypes["EventV6_62"], l, 0x19})
+			} else if t, ok := staticMsgTypes[l.Name]; ok {
+				static = append(static, msgType{t, l, 0x17})
+			}
+		}
+		stages := []func(int){}
+		for ti := range static {
+			mt := static[ti]
+			stages = append(stages, func(g int) {
+				rr := gen.New(c.Seed, fmt.Sprintf("C05/first-use/%s/%d", mt.t.Name(), g), c.Batch)
+				for k := 0; k < 2; k++ {
+					c05Case(c, rr, mt, false, int64(-1000), zone, "concurrent-first-use")
+				}
+			})
+		}
+		if c.MBatch < 4 || c.Mode == "firstuse" { // (the other batches of a mode leave it to these and to the fresh child processes)
+			firstUse(c, "C05:first-use", "the codec", 8, stages...)
+		}
+		if c.Mode == "firstuse" {
+			return
+		}
+	}
+	typesList := messageTypes(c)
+	c.Res.Count("message-types", int64(len(typesList)))
 	var caseNo int64
 	N := c.N(400, 4000)
 	if c.Mode == "utc-deep" {
 		N = c.N(4000, 60000)
 	}
 
-	// ---- first use of every message type, by several goroutines at the same moment (a fresh process per batch: whatever the
-	// codec or the value types cache on first use is built under contention here), then the sequential sweep, then a
-	// sustained concurrent phase on random types
-	{
-		G := 8
-		for ti, mt := range typesList {
-			var wg sync.WaitGroup
-			gate := make(chan struct{})
-			for g := 0; g < G; g++ {
-				wg.Add(1)
-				go func(g int) {
-					defer wg.Done()
-					rr := gen.New(c.Seed, fmt.Sprintf("C05/first-use/%d/%d", ti, g), c.Batch)
-					<-gate
-					for k := 0; k < 3; k++ {
-						c05Case(c, rr, mt, false, int64(-1000-ti), zone, "concurrent-first-use")
-					}
-				}(g)
-			}
-			close(gate)
-			wg.Wait()
-		}
-		c.Res.Count("concurrent-first-use:types x goroutines", int64(len(typesList)*G))
-	}
+	// ---- the sequential sweep, then a sustained concurrent phase on random types
 	if c.Mode != "race" {
 		for _, mt := range typesList {
 			for i := 0; i < N; i++ {
